@@ -233,6 +233,9 @@ def r2(ctx, fs):
         if not (ok_br and ok_arg and used == preds and cnt == (1, 1) and guard == ['(. f is_fact)']):
             ctx.finding(rid, f.id, 'fact-rule', '%s: a fact on this type must get the temporal rule of %s applied exactly once between set_ni(lit(sigma)) and restore_ni(), under no other condition than is_fact '
                         '(found predicates %s, count %s, guards %s)' % (f.name, sorted(preds), sorted(used), cnt, guard), loc=f.loc)
+    # goals get the temporal rule through predicate::apply_rule, which must reach the inherited rules unconditionally
+    from .C03 import apply_rule_shape
+    apply_rule_shape(ctx, rid, fs)
     # the facts only reach new_atom of their smart type if solver::new_atom finds it among ALL supertypes
     from . import _smart
     _smart.notify_smart_types(ctx, rid, fs)
